@@ -338,6 +338,66 @@ theorem C15_closed_subscription_harmless :
 example : run {} [.bcast ⟨0, []⟩ .accepted, .closeSub, .subSpin, .subSpin, .trigger, .subSpin, .rbStep 0 .mempool, .subSpin, .trigger]
     = { pending := [⟨0, []⟩], running := some [⟨0, []⟩], subClosed := true } := by decide
 
+/-! ## interval ticks keep coming -/
+
+/-- the source of interval ticks as the proofs need it: every path through the interval arm of the
+handler's loop leaves it armed (regenerated; on the unchanged tree: a `time.Ticker` created once
+before the loop, stopped only by the deferred `Stop`) -/
+theorem C15_interval_source : intervalSrc.sound = true := by decide
+
+/-- **Interval ticks keep coming.**  With the interval source as found in the source, in EVERY
+state the Broadcaster can reach — after any history of broadcasts, confirmations, block events,
+interval ticks (also ticks that found a rebroadcast still running), rebroadcast progress, a closed
+subscription — the interval source is armed: the next interval elapsing IS delivered to the handler.
+Hence (second part) whenever the handler runs, no rebroadcast is running and something is accepted
+and not reported confirmed, that tick starts a rebroadcast of exactly the pending set; and (third
+part) a history with ticks is a history of `step` with `trigger` in their place, so everything
+proved above about "every later block event or tick" (`C15_included`, `C15_not_after_confirm`, …)
+is about real ticks. -/
+theorem C15_ticks_keep_coming (ops : List TOp) :
+    let t := trun intervalSrc {} ops
+    t.armed = true ∧
+    (t.core.stopped = false → t.core.running = none → t.core.pending ≠ [] →
+      (tstep intervalSrc t .tick).2 = .started (ids t.core.pending)) ∧
+    t.core = run {} (ops.map TOp.toOp) := by
+  intro t
+  have h := trun_sound intervalSrc C15_interval_source ops {} rfl
+  refine ⟨h.1, ?_, h.2⟩
+  intro hs hr hp
+  rw [(tstep_core intervalSrc t h.1 .tick).2]
+  exact C15_trigger_starts t.core hs hr hp
+
+/-- the same for ANY handler whose interval arm re-arms its source on every path (a one-shot timer
+reset both when a rebroadcast is started and when one is found running is as good as a ticker) -/
+theorem C15_ticks_keep_coming_general (iv : IntervalSrc) (hiv : iv.sound = true) (ops : List TOp) :
+    (trun iv {} ops).armed = true ∧ (trun iv {} ops).core = run {} (ops.map TOp.toOp) :=
+  trun_sound iv hiv ops {} rfl
+
+/-- a one-shot timer that is re-armed only when a rebroadcast is actually started (round-g seed) -/
+def timerRearmedOnStart : IntervalSrc :=
+  { periodic := false, tickRearmAcquired := true, tickRearmBusy := false, blockRearmAcquired := true, blockRearmBusy := false }
+
+/-- **Counterexample for the one-shot source.**  Transaction 0 is accepted, a block event starts a
+rebroadcast (and re-arms the timer), the interval elapses while that rebroadcast is still running
+(the tick arm returns early and does NOT re-arm), the rebroadcast ends: the Broadcaster is running,
+nothing is being rebroadcast, transaction 0 is accepted and unconfirmed — and the interval source is
+dead: a tick can never happen again (`tick` is a no-op from here, whatever else happens short of a
+block event), so the transaction is in no interval rebroadcast although it was never confirmed. -/
+theorem C15_ticks_keep_coming_counterexample :
+    let t := trun timerRearmedOnStart {}
+      [.op (.bcast ⟨0, []⟩ .accepted), .op .trigger, .tick, .op (.rbStep 0 .mempool)]
+    timerRearmedOnStart.sound = false ∧
+    t.core.stopped = false ∧ t.core.running = none ∧ ids t.core.pending = [0] ∧ t.armed = false ∧
+    tstep timerRearmedOnStart t .tick = (t, .noop) ∧
+    (trun timerRearmedOnStart t [.tick, .op (.confirm 7), .tick, .op (.bcast ⟨1, [0]⟩ .accepted), .tick]).armed = false := by
+  decide
+
+/-- the ticker on the same history: armed, and the next tick rebroadcasts transaction 0 -/
+example :
+    let t := trun intervalSrc {}
+      [.op (.bcast ⟨0, []⟩ .accepted), .op .trigger, .tick, .op (.rbStep 0 .mempool)]
+    t.armed = true ∧ (tstep intervalSrc t .tick).2 = .started [0] := by decide
+
 /-- **What the proofs rely on in the source** (a change here breaks this obligation):
 the handler stores a tx only after the network's answer passed the Mempool test, deletes on
 `confChan`, the rebroadcast walks `DependencySort` of its copy; the verdict computation has
